@@ -146,11 +146,17 @@ CHECKS = {
         ref="DESIGN.md §5 C13"),
     'C14': dict(
         text="Coq theorems: snippet resolution never runs out of fuel with the fuel markup_parse supplies (pigeonhole on the duplicate-free "
-             "stack), nesting depth <= |snippets|, for ALL tables incl. self-referencing and mutually recursive ones; alias_merge on "
-             "the pure model for all tables and decorations; alias = definition as a COMPLETE vm_compute sweep over every key of the "
-             "regenerated html/xsl/pug tables in four forms (alone, repeated under a parent, with extra attributes, with a child). "
-             "Oracle: expand(alias form) == expand(definition-in-place form), random user tables with cycles (termination, depth).",
-        technique="Coq proof (fuel bound by pigeonhole over the resolution stack, merge equations) + complete finite sweep over generated snippet tables + model/implementation correspondence",
+             "stack), nesting depth <= |snippets|, for ALL tables incl. self-referencing and mutually recursive ones; "
+             "C14_alias_eq_definition for ALL tables and keys whose definition does not reach itself through the names it mentions "
+             "(self_free: decidable, proved equivalent to the reachability relation; the cyclic case is refuted by example, "
+             "C14_cyclic_cut_refuted, both sides terminate) -- markup_parse and expand of the key equal those of the definition; "
+             "C14_alias_decorated / _attributes / _repeat / _text / _self_closing / _children: attributes, text, repeater and the "
+             "self-closing mark written on the alias land on every top-level node of the resolved definition, children under its "
+             "deepest node; string forms k>c, k+c, k.c, k#c; alias = definition additionally as a COMPLETE vm_compute sweep over every "
+             "key of the regenerated html/xsl/pug tables in four forms (covers the built-in self-references such as a = a[href]). "
+             "Oracle: expand(alias form) == expand(definition-in-place form) on random user tables with cycles (termination, depth), "
+             "decorated-alias equations stated directly on resolve_snippets' trees; extracted resolver (run/SnipRun.v) compared on the same trees.",
+        technique="Coq proof (fuel bound by pigeonhole over the resolution stack, reachability/stack-irrelevance lemmas, merge equations) + complete finite sweep over generated snippet tables + model/implementation correspondence",
         ref="DESIGN.md §5 C14"),
     'C15': dict(
         text="Coq theorems for ALL forests (names/attributes free of CR/LF, arbitrary multi-line values), all option and punctuation "
